@@ -26,6 +26,12 @@ def in_scope(f):
 
 def extract_all(prog):
     out = {}
+    try:
+        with open(TABLE) as fh:
+            bitspec.INLINE_BLOCK |= set(json.load(fh)["functions"])
+    except (OSError, ValueError, KeyError):
+        pass
+    bitspec.INLINED.clear()
     for cn in SCOPE:
         for f in prog.crate(cn).fn_list:
             if not in_scope(f):
@@ -102,7 +108,13 @@ def rule_bitspec(ctx):
                         for v in a["variants"]:
                             for fl in v["fields"]:
                                 field_names.add(str(fl[0]))
-            h2, w2 = [wild_locals(x, field_names) for x in have], [wild_locals(x, field_names) for x in want]
+            def wild_head(x):
+                hd, sep, rest = x.partition(": ")
+                if sep and " " not in hd and hd not in field_names and not hd.startswith("each"):
+                    return "_: " + rest
+                return x
+            h2 = [wild_head(wild_locals(x, field_names)) for x in have]
+            w2 = [wild_head(wild_locals(x, field_names)) for x in want]
             if h2 == w2:
                 have = want
         if have == want:
@@ -121,6 +133,8 @@ def rule_bitspec(ctx):
                 "field and the end position shift" % (path.split(" as ")[0].lstrip("<"), i, w, h, len(want), len(have)), fn=f)
     for path in sorted(set(got) - set(ref["functions"])):
         f, have = got[path]
+        if path in bitspec.INLINED:
+            continue        # a private helper of a reviewed parser: its reads were compared as part of that parser's layout
         ctx.bad(rid, "%s|unreviewed-parser" % path, "new header parser %s with %d reads has no reviewed layout" % (path, len(have)), fn=f)
     ctx.counts[rid + ".functions"] = len(ref["functions"])
     ctx.counts[rid + ".functions-reviewed-against-spec"] = reviewed
